@@ -34,7 +34,14 @@ pub fn resolve(
 		{
 			Expression::Builtin(GeneratorBuiltin::Format { arguments })
 		}
-		Builtin::File => file(location),
+		Builtin::File =>
+		{
+			// The value of `file!()` is a string slice, not an array.
+			Expression::Autocoerce {
+				expression: Box::new(file(location)),
+				coerced_type: ValueType::for_string_slice(),
+			}
+		}
 		Builtin::Line => line(location),
 		Builtin::Print => write(Fd::Stdout, arguments),
 		Builtin::Eprint => write(Fd::Stderr, arguments),
